@@ -233,8 +233,8 @@ Proof. exact world_err_unchanged. Qed.
 
 Theorem C02_history_continues_from_unchanged_world : forall vr accts s b st rest i,
   world_step vr s b st = Err ->
-  run_steps vr accts s b (st :: rest) i = (s, b, Some i) \/
-  run_steps vr accts s b (st :: rest) i = run_steps vr accts s b rest (i + 1).
+  run_steps vr accts s b (IStep st :: rest) i = (s, b, Some i) \/
+  run_steps vr accts s b (IStep st :: rest) i = run_steps vr accts s b rest (i + 1).
 Proof. exact run_steps_err_keeps. Qed.
 
 (* ---- hence over any history of calls of any kind (failed ones included), by anybody, the
